@@ -446,6 +446,13 @@ class Unit:
         if k in ('def', 'except'):
             return
         if isinstance(s, ast.Assign):
+            if len(s.targets) == 1 and isinstance(s.targets[0], (ast.Tuple, ast.List)) and isinstance(s.value, (ast.Tuple, ast.List)) \
+                    and len(s.targets[0].elts) == len(s.value.elts) and not any(isinstance(x, ast.Starred) for x in s.targets[0].elts + s.value.elts):
+                # a, b = x, y : pairwise (all right-hand sides first), not "every target may be any of the values"
+                vals = [self.ev(x) for x in s.value.elts]
+                for t, v in zip(s.targets[0].elts, vals):
+                    self.assign(t, v, s)
+                return
             v = self.ev(s.value)
             for t in s.targets:
                 self.assign(t, v, s)
